@@ -469,6 +469,10 @@ def run(cx, rep):
     # ---------------------------------------------------------------- C01.7
     rep.rule("C01.7", "the printer takes IR nodes apart without dropping a field")
     partial_projection_rule(cx, rep, "C01.7")
+    # ---------------------------------------------------------------- C01.12 (= C08.6)
+    rep.rule("C01.12", "narrowing a property declared by two intersection members keeps the narrower type whichever member comes first")
+    from rules.c08 import symmetric_merge_rule
+    symmetric_merge_rule(cx, rep, "C01.12")
     # ---------------------------------------------------------------- C01.8
     rep.rule("C01.8", "scope stacks (generic parameters, mapped-type variables) are searched innermost-first")
     scope_stack_rule(cx, rep, "C01.8")
@@ -525,3 +529,6 @@ def run(cx, rep):
     # ---------------------------------------------------------------- C01.10
     rep.rule("C01.10", "validate() reads every constructor argument it read on the reviewed tree")
     ts_common.field_matrix_rule(cx, rep, "C01.10", ['validate'])
+    # ---------------------------------------------------------------- C01.11
+    rep.rule("C01.11", "validate(): every element of an array-valued constructor argument is accounted for (no fixed-size prefix)")
+    ts_common.truncation_rule(cx, rep, "C01.11", ['validate'])
